@@ -44,6 +44,8 @@ GroupOf(t) == CHOOSE k \in CmdIds : t \in Group[k]
 VARIABLES
   table,     \* installed service version (0 = service absent)          ServiceMap
   verLb,     \* verLb[v] = active load balancer of version v            Service.active
+  verRb,     \* verRb[v] = rollout load balancer of version v (0 = none) Service.rollout
+  split,     \* split[v] = a rollout split is set on version v          Service.rolloutController # nil
   ts,        \* target state                                            Target.state
   saved,     \* state a drain will restore                              Drain: originalState
   rot,       \* rot[l] = rotation of load balancer l                    LoadBalancer.healthy
@@ -56,6 +58,8 @@ VARIABLES
   snap,      \* requests a drain is waiting for
   pstate,    \* pause controller state                                  PauseController.State
   pgen,      \* identity of the release channel                         PauseController.pauseChannel
+  inc,       \* incarnation of the service (and of its pause controller): remove + deploy makes a new one
+  pold,      \* pold[i] = [st, gen]: how the pause controller of the removed incarnation i was left
   cm,        \* the command in progress
   next,      \* index of the next command
   res,       \* res[k] = result of command k ("" while not returned)
@@ -64,18 +68,21 @@ VARIABLES
   okEver,    \* target has answered a probe 2xx
   retired    \* target belongs to a group whose replacing deploy has returned
 
-vars == <<table, verLb, ts, saved, rot, became, hcOn, hc, nprobe, inflight, dr, snap,
-          pstate, pgen, cm, next, res, rq, okEver, retired>>
+vars == <<table, verLb, verRb, split, ts, saved, rot, became, hcOn, hc, nprobe, inflight, dr, snap,
+          pstate, pgen, inc, pold, cm, next, res, rq, okEver, retired>>
 
-Idle == [k |-> 0, pc |-> "idle", repl |-> 0, pend |-> {}]
+Idle == [k |-> 0, pc |-> "idle", repl |-> 0, pend |-> {}, slot |-> "", ver |-> 0]
 
 NewReq == [pc |-> "new", kind |-> "plain", ver |-> 0, lb |-> 0, tgt |-> NoTarget, status |-> 0,
-           gen |-> 0, dep |-> FALSE, allowed |-> {}, stale |-> FALSE, gateclaim |-> FALSE,
-           lateBeg |-> FALSE, pAtSend |-> "running", disturbed |-> FALSE, resumed |-> FALSE, heldIn |-> 0, claimTs |-> "", claimHc |-> ""]
+           gen |-> 0, ginc |-> 0, rinc |-> 0, dep |-> FALSE, allowed |-> {}, stale |-> FALSE, gateclaim |-> FALSE,
+           lateBeg |-> FALSE, pAtSend |-> "running", disturbed |-> FALSE, resumed |-> FALSE, heldIn |-> 0, claimTs |-> "", claimHc |-> "",
+           roll |-> FALSE, nosplit |-> FALSE]
 
 Init ==
   /\ table = 0
   /\ verLb = [v \in 0..NCmds |-> 0]
+  /\ verRb = [v \in 0..NCmds |-> 0]
+  /\ split = [v \in 0..NCmds |-> FALSE]
   /\ ts = [t \in Targets |-> "adding"]
   /\ saved = [t \in Targets |-> "adding"]
   /\ rot = [l \in 0..NCmds |-> {}]
@@ -88,6 +95,8 @@ Init ==
   /\ snap = [t \in Targets |-> {}]
   /\ pstate = "running"
   /\ pgen = 0
+  /\ inc = 0
+  /\ pold = [i \in 0..NCmds |-> [st |-> "running", gen |-> 0]]
   /\ cm = Idle
   /\ next = 1
   /\ res = [k \in CmdIds |-> ""]
@@ -103,19 +112,19 @@ HcSend(t) ==                                   \* ticker / first probe
   /\ hcOn[t] /\ hc[t] = "idle" /\ nprobe[t] < MaxProbes
   /\ hc' = [hc EXCEPT ![t] = "sent"]
   /\ nprobe' = [nprobe EXCEPT ![t] = @ + 1]
-  /\ UNCHANGED <<table, verLb, ts, saved, rot, became, hcOn, inflight, dr, snap, pstate, pgen, cm, next, res, rq, okEver, retired>>
+  /\ UNCHANGED <<table, verLb, verRb, split, ts, saved, rot, became, hcOn, inflight, dr, snap, pstate, pgen, inc, pold, cm, next, res, rq, okEver, retired>>
 
 TgProbeReply(t, good) ==                       \* environment: the probe completes (reply, error, or probe timeout) and is reported;
   /\ hc[t] = "sent"                            \* a reply that raced a Close() is still reported (check() only drops context.Canceled)
   /\ good \/ AllowBad
   /\ hc' = [hc EXCEPT ![t] = IF good THEN "ok" ELSE "bad"]
   /\ okEver' = [okEver EXCEPT ![t] = @ \/ good]
-  /\ UNCHANGED <<table, verLb, ts, saved, rot, became, hcOn, nprobe, inflight, dr, snap, pstate, pgen, cm, next, res, rq, retired>>
+  /\ UNCHANGED <<table, verLb, verRb, split, ts, saved, rot, became, hcOn, nprobe, inflight, dr, snap, pstate, pgen, inc, pold, cm, next, res, rq, retired>>
 
 TgProbeDropped(t) ==                           \* the loop's context was cancelled while the probe was out: no report
   /\ hc[t] = "sent" /\ ~hcOn[t]
   /\ hc' = [hc EXCEPT ![t] = "off"]
-  /\ UNCHANGED <<table, verLb, ts, saved, rot, became, hcOn, nprobe, inflight, dr, snap, pstate, pgen, cm, next, res, rq, okEver, retired>>
+  /\ UNCHANGED <<table, verLb, verRb, split, ts, saved, rot, became, hcOn, nprobe, inflight, dr, snap, pstate, pgen, inc, pold, cm, next, res, rq, okEver, retired>>
 
 HcApply(t) ==                                  \* hook hc_result; locked section of HealthCheckCompleted
   /\ hc[t] \in {"ok", "bad"}
@@ -126,7 +135,7 @@ HcApply(t) ==                                  \* hook hc_result; locked section
      IN /\ ts' = [ts EXCEPT ![t] = ns]
         /\ became' = [became EXCEPT ![t] = @ \/ (first /\ ~SignalAfterNotify)]
         /\ hc' = [hc EXCEPT ![t] = IF ns # ts[t] THEN (IF first THEN "applied_first" ELSE "applied") ELSE "noted"]
-  /\ UNCHANGED <<table, verLb, saved, rot, hcOn, nprobe, inflight, dr, snap, pstate, pgen, cm, next, res, rq, okEver, retired>>
+  /\ UNCHANGED <<table, verLb, verRb, split, saved, rot, hcOn, nprobe, inflight, dr, snap, pstate, pgen, inc, pold, cm, next, res, rq, okEver, retired>>
 
 HcNotify(t) ==                                 \* hook hc_applied; TargetStateChanged -> updateHealthyTargets (LB lock)
   /\ hc[t] \in {"applied", "applied_first", "noted"}
@@ -134,52 +143,75 @@ HcNotify(t) ==                                 \* hook hc_applied; TargetStateCh
             ELSE [rot EXCEPT ![GroupOf(t)] = {u \in Group[GroupOf(t)] : ts[u] = "healthy"}]
   /\ became' = [became EXCEPT ![t] = @ \/ (SignalAfterNotify /\ hc[t] = "applied_first")]
   /\ hc' = [hc EXCEPT ![t] = IF hcOn[t] THEN "idle" ELSE "off"]     \* hook hc_notified, back to the loop
-  /\ UNCHANGED <<table, verLb, ts, saved, hcOn, nprobe, inflight, dr, snap, pstate, pgen, cm, next, res, rq, okEver, retired>>
+  /\ UNCHANGED <<table, verLb, verRb, split, ts, saved, hcOn, nprobe, inflight, dr, snap, pstate, pgen, inc, pold, cm, next, res, rq, okEver, retired>>
 
 HcStopped(t) ==                                \* loop observes its cancelled context
   /\ ~hcOn[t] /\ hc[t] = "idle"
   /\ hc' = [hc EXCEPT ![t] = "off"]
-  /\ UNCHANGED <<table, verLb, ts, saved, rot, became, hcOn, nprobe, inflight, dr, snap, pstate, pgen, cm, next, res, rq, okEver, retired>>
+  /\ UNCHANGED <<table, verLb, verRb, split, ts, saved, rot, became, hcOn, nprobe, inflight, dr, snap, pstate, pgen, inc, pold, cm, next, res, rq, okEver, retired>>
 
 (***************************************************************************)
 (* Operator commands, issued one after the other.                          *)
 (***************************************************************************)
 DepCall(k) ==                                  \* findOrCreateService/CopyWithOptions, NewTargetList, NewLoadBalancer
   /\ cm.pc = "idle" /\ next = k /\ k <= NCmds /\ Cmds[k] = "deploy"
-  /\ verLb' = [verLb EXCEPT ![k] = verLb[table]]       \* the copy shares the installed version's load balancer
+  /\ verLb' = [verLb EXCEPT ![k] = verLb[table]]       \* the copy shares the installed version's load balancers
+  /\ verRb' = [verRb EXCEPT ![k] = verRb[table]]       \* ... rollout load balancer
+  /\ split' = [split EXCEPT ![k] = split[table]]       \* ... and rollout controller
   /\ hcOn' = [t \in Targets |-> IF t \in Group[k] THEN TRUE ELSE hcOn[t]]
   /\ hc' = [t \in Targets |-> IF t \in Group[k] THEN "idle" ELSE hc[t]]
-  /\ cm' = [k |-> k, pc |-> "wait", repl |-> 0, pend |-> {}]
+  /\ cm' = [k |-> k, pc |-> "wait", repl |-> 0, pend |-> {}, slot |-> "active", ver |-> k]
   /\ next' = k + 1
   /\ rq' = [r \in Reqs |-> IF rq[r].pc \notin {"new", "done"} THEN [rq[r] EXCEPT !.allowed = @ \cup {k}] ELSE rq[r]]
-  /\ UNCHANGED <<table, ts, saved, rot, became, nprobe, inflight, dr, snap, pstate, pgen, res, okEver, retired>>
+  /\ UNCHANGED <<table, ts, saved, rot, became, nprobe, inflight, dr, snap, pstate, pgen, inc, pold, res, okEver, retired>>
 
-DepWaitOk ==                                   \* WaitUntilHealthy: every target's becameHealthy closed
+RdCall(k) ==                                   \* SetRolloutTargets: works on the installed service itself, not on a copy
+  /\ cm.pc = "idle" /\ next = k /\ k <= NCmds /\ Cmds[k] = "rdeploy" /\ table # 0
+  /\ hcOn' = [t \in Targets |-> IF t \in Group[k] THEN TRUE ELSE hcOn[t]]
+  /\ hc' = [t \in Targets |-> IF t \in Group[k] THEN "idle" ELSE hc[t]]
+  /\ cm' = [k |-> k, pc |-> "wait", repl |-> 0, pend |-> {}, slot |-> "rollout", ver |-> table]
+  /\ next' = k + 1
+  /\ rq' = [r \in Reqs |-> IF rq[r].pc \notin {"new", "done"} THEN [rq[r] EXCEPT !.allowed = @ \cup {k}] ELSE rq[r]]
+  /\ UNCHANGED <<table, verLb, verRb, split, ts, saved, rot, became, nprobe, inflight, dr, snap, pstate, pgen, inc, pold, res, okEver, retired>>
+
+DepWaitOk ==                                   \* WaitUntilHealthy: every target's becameHealthy closed before its waiter gave up
   /\ cm.pc = "wait"
-  /\ \A t \in Group[cm.k] : became[t]
+  /\ \A t \in Group[cm.k] : became[t] /\ hcOn[t]
   /\ cm' = [cm EXCEPT !.pc = "healthy"]
-  /\ UNCHANGED <<table, verLb, ts, saved, rot, became, hcOn, hc, nprobe, inflight, dr, snap, pstate, pgen, next, res, rq, okEver, retired>>
+  /\ UNCHANGED <<table, verLb, verRb, split, ts, saved, rot, became, hcOn, hc, nprobe, inflight, dr, snap, pstate, pgen, inc, pold, next, res, rq, okEver, retired>>
 
-DepWaitTimeout ==                              \* deploy timeout fires for a target that is not healthy; lb.Dispose
+WaitTargetTimeout(t) ==                        \* Target.WaitUntilHealthy: this target's waiter gives up and stops its probe loop
+  /\ cm.pc = "wait" /\ t \in Group[cm.k]
+  /\ hcOn[t] /\ ~became[t]
+  /\ hcOn' = [hcOn EXCEPT ![t] = FALSE]
+  /\ UNCHANGED <<table, verLb, verRb, split, ts, saved, rot, became, hc, nprobe, inflight, dr, snap, pstate, pgen, inc, pold, cm, next, res, rq, okEver, retired>>
+
+DepWaitTimeout ==                              \* all waiters are back and one of them gave up: lb.Dispose, the deploy fails
   /\ cm.pc = "wait"
-  /\ \E t \in Group[cm.k] : ~became[t]
+  /\ \E t \in Group[cm.k] : ~hcOn[t]
+  /\ \A t \in Group[cm.k] : became[t] \/ ~hcOn[t]
   /\ hcOn' = [t \in Targets |-> IF t \in Group[cm.k] THEN FALSE ELSE hcOn[t]]
   /\ cm' = [cm EXCEPT !.pc = "ret"]
   /\ res' = [res EXCEPT ![cm.k] = "unhealthy"]
-  /\ UNCHANGED <<table, verLb, ts, saved, rot, became, hc, nprobe, inflight, dr, snap, pstate, pgen, next, rq, okEver, retired>>
+  /\ UNCHANGED <<table, verLb, verRb, split, ts, saved, rot, became, hc, nprobe, inflight, dr, snap, pstate, pgen, inc, pold, next, rq, okEver, retired>>
 
-DepUpdateSlot ==                               \* hook dep_healthy; UpdateLoadBalancer on the copy
+DepUpdateSlot ==                               \* hook dep_healthy; UpdateLoadBalancer (on the copy, or on the live service for a rollout deploy)
   /\ cm.pc = "healthy"
-  /\ cm' = [cm EXCEPT !.pc = "updated", !.repl = verLb[cm.k]]
-  /\ verLb' = [verLb EXCEPT ![cm.k] = cm.k]
-  /\ UNCHANGED <<table, ts, saved, rot, became, hcOn, hc, nprobe, inflight, dr, snap, pstate, pgen, next, res, rq, okEver, retired>>
+  /\ IF cm.slot = "active"
+     THEN /\ cm' = [cm EXCEPT !.pc = "updated", !.repl = verLb[cm.ver]]
+          /\ verLb' = [verLb EXCEPT ![cm.ver] = cm.k]
+          /\ UNCHANGED verRb
+     ELSE /\ cm' = [cm EXCEPT !.pc = "updated", !.repl = verRb[cm.ver]]
+          /\ verRb' = [verRb EXCEPT ![cm.ver] = cm.k]
+          /\ UNCHANGED verLb
+  /\ UNCHANGED <<table, split, ts, saved, rot, became, hcOn, hc, nprobe, inflight, dr, snap, pstate, pgen, inc, pold, next, res, rq, okEver, retired>>
 
 DepInstall ==                                  \* hook dep_pre_install; installService under the router's write lock
   /\ cm.pc = "updated"
-  /\ table' = cm.k
+  /\ table' = cm.ver
   /\ cm' = [cm EXCEPT !.pc = IF cm.repl = 0 THEN "drained" ELSE "installed", !.pend = IF cm.repl = 0 THEN {} ELSE Group[cm.repl]]
   /\ dr' = [t \in Targets |-> IF cm.repl # 0 /\ t \in Group[cm.repl] THEN "start" ELSE dr[t]]
-  /\ UNCHANGED <<verLb, ts, saved, rot, became, hcOn, hc, nprobe, inflight, snap, pstate, pgen, next, res, rq, okEver, retired>>
+  /\ UNCHANGED <<verLb, verRb, split, ts, saved, rot, became, hcOn, hc, nprobe, inflight, snap, pstate, pgen, inc, pold, next, res, rq, okEver, retired>>
 
 (***************************************************************************)
 (* Drain of one target (target.go Drain), fanned out by DrainAll.          *)
@@ -192,7 +224,7 @@ DrainMark(t) ==                                \* updateState(draining); returns
      ELSE /\ ts' = [ts EXCEPT ![t] = "draining"]
           /\ saved' = [saved EXCEPT ![t] = ts[t]]
           /\ dr' = [dr EXCEPT ![t] = "marked"]
-  /\ UNCHANGED <<table, verLb, rot, became, hcOn, hc, nprobe, inflight, snap, pstate, pgen, cm, next, res, rq, okEver, retired>>
+  /\ UNCHANGED <<table, verLb, verRb, split, rot, became, hcOn, hc, nprobe, inflight, snap, pstate, pgen, inc, pold, cm, next, res, rq, okEver, retired>>
 
 DrainSnapshot(t) ==                            \* hook drain_marked; pendingRequestsToCancel + cancel hijacked at once
   /\ dr[t] = "marked"
@@ -201,13 +233,13 @@ DrainSnapshot(t) ==                            \* hook drain_marked; pendingRequ
         /\ inflight' = [inflight EXCEPT ![t] = @ \ up]
         /\ rq' = [r \in Reqs |-> IF r \in up THEN [rq[r] EXCEPT !.pc = "done"] ELSE rq[r]]
   /\ dr' = [dr EXCEPT ![t] = "waiting"]
-  /\ UNCHANGED <<table, verLb, ts, saved, rot, became, hcOn, hc, nprobe, pstate, pgen, cm, next, res, okEver, retired>>
+  /\ UNCHANGED <<table, verLb, verRb, split, ts, saved, rot, became, hcOn, hc, nprobe, pstate, pgen, inc, pold, cm, next, res, okEver, retired>>
 
 DrainWaitDone(t) ==                            \* every snapshotted request has finished
   /\ dr[t] = "waiting"
   /\ snap[t] \cap inflight[t] = {}
   /\ dr' = [dr EXCEPT ![t] = "cancelled"]
-  /\ UNCHANGED <<table, verLb, ts, saved, rot, became, hcOn, hc, nprobe, inflight, snap, pstate, pgen, cm, next, res, rq, okEver, retired>>
+  /\ UNCHANGED <<table, verLb, verRb, split, ts, saved, rot, became, hcOn, hc, nprobe, inflight, snap, pstate, pgen, inc, pold, cm, next, res, rq, okEver, retired>>
 
 DrainDeadline(t) ==                            \* the drain timeout fires first; hook drain_deadline; cancel the rest
   /\ dr[t] = "waiting"
@@ -219,13 +251,13 @@ DrainDeadline(t) ==                            \* the drain timeout fires first;
      IN /\ inflight' = [inflight EXCEPT ![t] = @ \ cut]
         /\ rq' = [r \in Reqs |-> IF r \in cut THEN [rq[r] EXCEPT !.pc = "done", !.status = 504] ELSE rq[r]]
   /\ dr' = [dr EXCEPT ![t] = "cancelled"]
-  /\ UNCHANGED <<table, verLb, ts, saved, rot, became, hcOn, hc, nprobe, snap, pstate, pgen, cm, next, res, okEver, retired>>
+  /\ UNCHANGED <<table, verLb, verRb, split, ts, saved, rot, became, hcOn, hc, nprobe, snap, pstate, pgen, inc, pold, cm, next, res, okEver, retired>>
 
 DrainRestore(t) ==                             \* deferred updateState(originalState)
   /\ dr[t] = "cancelled"
   /\ ts' = [ts EXCEPT ![t] = saved[t]]
   /\ dr' = [dr EXCEPT ![t] = "done"]
-  /\ UNCHANGED <<table, verLb, saved, rot, became, hcOn, hc, nprobe, inflight, snap, pstate, pgen, cm, next, res, rq, okEver, retired>>
+  /\ UNCHANGED <<table, verLb, verRb, split, saved, rot, became, hcOn, hc, nprobe, inflight, snap, pstate, pgen, inc, pold, cm, next, res, rq, okEver, retired>>
 
 DrainAllDone ==                                \* wg.Wait of DrainAll; hook dep_drained / end of Service.Drain
   /\ cm.pc \in {"installed", "pdrain"}
@@ -233,67 +265,99 @@ DrainAllDone ==                                \* wg.Wait of DrainAll; hook dep_
   /\ dr' = [t \in Targets |-> IF t \in cm.pend THEN "none" ELSE dr[t]]
   /\ cm' = [cm EXCEPT !.pc = IF cm.pc = "installed" THEN "drained" ELSE "ret"]
   /\ res' = IF cm.pc = "pdrain" THEN [res EXCEPT ![cm.k] = "ok"] ELSE res
-  /\ UNCHANGED <<table, verLb, ts, saved, rot, became, hcOn, hc, nprobe, inflight, snap, pstate, pgen, next, rq, okEver, retired>>
+  /\ UNCHANGED <<table, verLb, verRb, split, ts, saved, rot, became, hcOn, hc, nprobe, inflight, snap, pstate, pgen, inc, pold, next, rq, okEver, retired>>
 
 DepDisposeOld ==                               \* replaced.Dispose(): stop the old group's probe loops
   /\ cm.pc = "drained"
   /\ hcOn' = [t \in Targets |-> IF cm.repl # 0 /\ t \in Group[cm.repl] THEN FALSE ELSE hcOn[t]]
   /\ cm' = [cm EXCEPT !.pc = "ret"]
   /\ res' = [res EXCEPT ![cm.k] = "ok"]
-  /\ UNCHANGED <<table, verLb, ts, saved, rot, became, hc, nprobe, inflight, dr, snap, pstate, pgen, next, rq, okEver, retired>>
+  /\ UNCHANGED <<table, verLb, verRb, split, ts, saved, rot, became, hc, nprobe, inflight, dr, snap, pstate, pgen, inc, pold, next, rq, okEver, retired>>
 
 CmdReturn ==                                   \* the operator sees the command return
   /\ cm.pc = "ret"
   /\ retired' = [t \in Targets |->
-                   retired[t] \/ (Cmds[cm.k] = "deploy" /\ res[cm.k] = "ok" /\ cm.repl # 0 /\ t \in Group[cm.repl])]
+                   retired[t] \/ (Cmds[cm.k] \in {"deploy", "rdeploy"} /\ res[cm.k] = "ok" /\ cm.repl # 0 /\ t \in Group[cm.repl])]
   /\ cm' = Idle
   /\ rq' = [r \in Reqs |-> IF rq[r].pc \notin {"new", "done"} /\ Cmds[cm.k] \in {"pause", "stop"}
                            THEN [rq[r] EXCEPT !.disturbed = TRUE] ELSE rq[r]]
-  /\ UNCHANGED <<table, verLb, ts, saved, rot, became, hcOn, hc, nprobe, inflight, dr, snap, pstate, pgen, next, res, okEver>>
+  /\ UNCHANGED <<table, verLb, verRb, split, ts, saved, rot, became, hcOn, hc, nprobe, inflight, dr, snap, pstate, pgen, inc, pold, next, res, okEver>>
 
 (***************************************************************************)
 (* pause / stop / resume (service.go Pause/Stop/Resume, pause_controller)  *)
 (***************************************************************************)
-LiveTargets == IF table = 0 THEN {} ELSE Group[verLb[table]]
+LiveLbs(v) == IF v = 0 THEN {} ELSE {verLb[v]} \cup (IF verRb[v] # 0 THEN {verRb[v]} ELSE {})
+LiveTargets == UNION {Group[l] : l \in LiveLbs(table)}      \* Service.Drain: the active and the rollout load balancer
 
 PcPause(k) ==                                  \* PauseController.Pause: new channel only on a state change
   /\ cm.pc = "idle" /\ next = k /\ k <= NCmds /\ Cmds[k] = "pause" /\ table # 0
   /\ pgen' = IF pstate # "paused" THEN pgen + 1 ELSE pgen
   /\ pstate' = "paused"
-  /\ cm' = [k |-> k, pc |-> "pdrain", repl |-> 0, pend |-> LiveTargets]    \* hook paused_pre_drain
+  /\ cm' = [k |-> k, pc |-> "pdrain", repl |-> 0, pend |-> LiveTargets, slot |-> "", ver |-> 0]    \* hook paused_pre_drain
   /\ dr' = [t \in Targets |-> IF t \in LiveTargets THEN "start" ELSE dr[t]]
   /\ next' = k + 1
   /\ rq' = [r \in Reqs |-> IF rq[r].pc \notin {"new", "done"} THEN [rq[r] EXCEPT !.disturbed = TRUE] ELSE rq[r]]
-  /\ UNCHANGED <<table, verLb, ts, saved, rot, became, hcOn, hc, nprobe, inflight, snap, res, okEver, retired>>
+  /\ UNCHANGED <<table, verLb, verRb, split, ts, saved, rot, became, hcOn, hc, nprobe, inflight, snap, res, okEver, retired, inc, pold>>
 
 PcStop(k) ==                                   \* setState(stopped): closes the channel when leaving paused
   /\ cm.pc = "idle" /\ next = k /\ k <= NCmds /\ Cmds[k] = "stop" /\ table # 0
   /\ pstate' = "stopped"
   /\ pgen' = pgen
-  /\ cm' = [k |-> k, pc |-> "pdrain", repl |-> 0, pend |-> LiveTargets]
+  /\ cm' = [k |-> k, pc |-> "pdrain", repl |-> 0, pend |-> LiveTargets, slot |-> "", ver |-> 0]
   /\ dr' = [t \in Targets |-> IF t \in LiveTargets THEN "start" ELSE dr[t]]
   /\ next' = k + 1
   /\ rq' = [r \in Reqs |-> IF rq[r].pc \notin {"new", "done"} THEN [rq[r] EXCEPT !.disturbed = TRUE] ELSE rq[r]]
-  /\ UNCHANGED <<table, verLb, ts, saved, rot, became, hcOn, hc, nprobe, inflight, snap, res, okEver, retired>>
+  /\ UNCHANGED <<table, verLb, verRb, split, ts, saved, rot, became, hcOn, hc, nprobe, inflight, snap, res, okEver, retired, inc, pold>>
 
 PcResume(k) ==
   /\ cm.pc = "idle" /\ next = k /\ k <= NCmds /\ Cmds[k] = "resume" /\ table # 0
   /\ pstate' = "running"
-  /\ cm' = [k |-> k, pc |-> "ret", repl |-> 0, pend |-> {}]
+  /\ cm' = [k |-> k, pc |-> "ret", repl |-> 0, pend |-> {}, slot |-> "", ver |-> 0]
   /\ res' = [res EXCEPT ![k] = "ok"]
   /\ next' = k + 1
   /\ rq' = [r \in Reqs |-> IF rq[r].pc \notin {"new", "done"}
                            THEN [rq[r] EXCEPT !.resumed = TRUE,
-                                              !.allowed = IF rq[r].pc = "held" THEN {verLb[table]} ELSE @]
+                                              !.allowed = IF rq[r].pc = "held" THEN LiveLbs(table) ELSE @]
                            ELSE rq[r]]
-  /\ UNCHANGED <<table, verLb, ts, saved, rot, became, hcOn, hc, nprobe, inflight, dr, snap, pgen, okEver, retired>>
+  /\ UNCHANGED <<table, verLb, verRb, split, ts, saved, rot, became, hcOn, hc, nprobe, inflight, dr, snap, pgen, inc, pold, okEver, retired>>
 
 CmdNotFound(k) ==                              \* pause/stop/resume of a service that does not exist
-  /\ cm.pc = "idle" /\ next = k /\ k <= NCmds /\ Cmds[k] \in {"pause", "stop", "resume"} /\ table = 0
-  /\ cm' = [k |-> k, pc |-> "ret", repl |-> 0, pend |-> {}]
+  /\ cm.pc = "idle" /\ next = k /\ k <= NCmds /\ Cmds[k] \in {"pause", "stop", "resume", "rdeploy", "rset", "rstop", "remove"} /\ table = 0
+  /\ cm' = [k |-> k, pc |-> "ret", repl |-> 0, pend |-> {}, slot |-> "", ver |-> 0]
   /\ res' = [res EXCEPT ![k] = "not_found"]
   /\ next' = k + 1
-  /\ UNCHANGED <<table, verLb, ts, saved, rot, became, hcOn, hc, nprobe, inflight, dr, snap, pstate, pgen, rq, okEver, retired>>
+  /\ UNCHANGED <<table, verLb, verRb, split, ts, saved, rot, became, hcOn, hc, nprobe, inflight, dr, snap, pstate, pgen, inc, pold, rq, okEver, retired>>
+
+CmdRemove(k) ==                                \* RemoveService: under the router's write lock the service is disposed
+  /\ cm.pc = "idle" /\ next = k /\ k <= NCmds /\ Cmds[k] = "remove" /\ table # 0     \* (probe loops closed, nothing drained)
+  /\ hcOn' = [t \in Targets |-> IF t \in LiveTargets THEN FALSE ELSE hcOn[t]]        \* and deleted from the table
+  /\ table' = 0
+  /\ pstate' = "running" /\ inc' = inc + 1       \* a later deploy creates a new service with a pause controller of its own
+  /\ pold' = [pold EXCEPT ![inc] = [st |-> pstate, gen |-> pgen]]       \* requests already routed to the removed service still see its controller
+  /\ res' = [res EXCEPT ![k] = "ok"]
+  /\ cm' = [k |-> k, pc |-> "ret", repl |-> 0, pend |-> {}, slot |-> "", ver |-> 0]
+  /\ next' = k + 1
+  /\ rq' = [r \in Reqs |-> IF rq[r].pc \notin {"new", "done"} THEN [rq[r] EXCEPT !.disturbed = TRUE] ELSE rq[r]]
+  /\ UNCHANGED <<verLb, verRb, split, ts, saved, rot, became, hc, nprobe, inflight, dr, snap, pgen, okEver, retired>>
+
+RsSet(k) ==                                    \* SetRolloutSplit: refused while the service has no rollout targets
+  /\ cm.pc = "idle" /\ next = k /\ k <= NCmds /\ Cmds[k] = "rset" /\ table # 0
+  /\ IF verRb[table] = 0
+     THEN res' = [res EXCEPT ![k] = "not_set"] /\ UNCHANGED <<split, rq>>
+     ELSE /\ res' = [res EXCEPT ![k] = "ok"]
+          /\ split' = [split EXCEPT ![table] = TRUE]
+          /\ rq' = [r \in Reqs |-> IF rq[r].pc \notin {"new", "done"} THEN [rq[r] EXCEPT !.nosplit = FALSE] ELSE rq[r]]
+  /\ cm' = [k |-> k, pc |-> "ret", repl |-> 0, pend |-> {}, slot |-> "", ver |-> 0]
+  /\ next' = k + 1
+  /\ UNCHANGED <<table, verLb, verRb, ts, saved, rot, became, hcOn, hc, nprobe, inflight, dr, snap, pstate, pgen, inc, pold, okEver, retired>>
+
+RsStop(k) ==                                   \* StopRollout: the rollout controller is dropped, the rollout targets stay
+  /\ cm.pc = "idle" /\ next = k /\ k <= NCmds /\ Cmds[k] = "rstop" /\ table # 0
+  /\ split' = [split EXCEPT ![table] = FALSE]
+  /\ res' = [res EXCEPT ![k] = "ok"]
+  /\ cm' = [k |-> k, pc |-> "ret", repl |-> 0, pend |-> {}, slot |-> "", ver |-> 0]
+  /\ next' = k + 1
+  /\ UNCHANGED <<table, verLb, verRb, ts, saved, rot, became, hcOn, hc, nprobe, inflight, dr, snap, pstate, pgen, inc, pold, rq, okEver, retired>>
 
 (***************************************************************************)
 (* Client requests (router.go ServeHTTP, service.go, load_balancer.go)     *)
@@ -303,80 +367,85 @@ CliSend(r, kind) ==
   /\ rq' = [rq EXCEPT ![r] = [@ EXCEPT !.pc = "sent", !.kind = kind,
               \* "deployed" in the operator's sense: some deploy of the service has returned ok
               !.dep = table # 0 /\ (\E k \in CmdIds : Cmds[k] = "deploy" /\ res[k] = "ok" /\ ~(cm.pc # "idle" /\ cm.k = k)),
-              !.allowed = (IF table # 0 THEN {verLb[table]} ELSE {}) \cup (IF cm.pc # "idle" /\ Cmds[cm.k] = "deploy" THEN {cm.k} ELSE {}),
+              !.allowed = LiveLbs(table) \cup (IF cm.pc # "idle" /\ Cmds[cm.k] \in {"deploy", "rdeploy"} THEN {cm.k} ELSE {}),
+              !.nosplit = table # 0 /\ ~split[table] /\ ~(cm.pc # "idle" /\ Cmds[cm.k] = "rset"),
               !.pAtSend = IF cm.pc # "idle" /\ Cmds[cm.k] \in {"pause", "stop", "resume"} THEN "busy" ELSE pstate,
               !.disturbed = cm.pc # "idle" /\ Cmds[cm.k] \in {"pause", "stop"}]]
-  /\ UNCHANGED <<table, verLb, ts, saved, rot, became, hcOn, hc, nprobe, inflight, dr, snap, pstate, pgen, cm, next, res, okEver, retired>>
+  /\ UNCHANGED <<table, verLb, verRb, split, ts, saved, rot, became, hcOn, hc, nprobe, inflight, dr, snap, pstate, pgen, inc, pold, cm, next, res, okEver, retired>>
 
 ReqRoute(r) ==                                 \* serviceForRequest under the read lock; hook routed
   /\ rq[r].pc = "sent"
   /\ rq' = [rq EXCEPT ![r] = IF table = 0 THEN [@ EXCEPT !.pc = "done", !.status = 404]
-                             ELSE [@ EXCEPT !.pc = "routed", !.ver = table]]
-  /\ UNCHANGED <<table, verLb, ts, saved, rot, became, hcOn, hc, nprobe, inflight, dr, snap, pstate, pgen, cm, next, res, okEver, retired>>
+                             ELSE [@ EXCEPT !.pc = "routed", !.ver = table, !.rinc = inc]]
+  /\ UNCHANGED <<table, verLb, verRb, split, ts, saved, rot, became, hcOn, hc, nprobe, inflight, dr, snap, pstate, pgen, inc, pold, cm, next, res, okEver, retired>>
 
+PStateFor(r) == IF rq[r].rinc = inc THEN pstate ELSE pold[rq[r].rinc].st
+PGenFor(r)   == IF rq[r].rinc = inc THEN pgen ELSE pold[rq[r].rinc].gen
 ReqGate(r) ==                                  \* PauseController.Wait: getWaitState; hook wait_snapshot
   /\ rq[r].pc = "routed"
   /\ rq' = [rq EXCEPT ![r] =
-       IF pstate = "running" THEN [@ EXCEPT !.pc = "gated"]
-       ELSE IF pstate = "stopped" THEN [@ EXCEPT !.pc = "done", !.status = 503]
-       ELSE [@ EXCEPT !.pc = "held", !.gen = pgen, !.heldIn = pgen]]
-  /\ UNCHANGED <<table, verLb, ts, saved, rot, became, hcOn, hc, nprobe, inflight, dr, snap, pstate, pgen, cm, next, res, okEver, retired>>
+       IF PStateFor(r) = "running" THEN [@ EXCEPT !.pc = "gated"]
+       ELSE IF PStateFor(r) = "stopped" THEN [@ EXCEPT !.pc = "done", !.status = 503]
+       ELSE [@ EXCEPT !.pc = "held", !.gen = PGenFor(r), !.ginc = rq[r].rinc, !.heldIn = PGenFor(r)]]
+  /\ UNCHANGED <<table, verLb, verRb, split, ts, saved, rot, became, hcOn, hc, nprobe, inflight, dr, snap, pstate, pgen, inc, pold, cm, next, res, okEver, retired>>
 
-ReqReleased(r) ==                              \* the release channel was closed (resume or stop)
+ReqReleased(r) ==                              \* the release channel was closed (resume or stop) - also that of a service removed since
   /\ rq[r].pc = "held"
-  /\ pgen # rq[r].gen \/ pstate # "paused"
-  /\ rq' = [rq EXCEPT ![r] = IF pstate = "stopped" THEN [@ EXCEPT !.pc = "done", !.status = 503]
+  /\ PGenFor(r) # rq[r].gen \/ PStateFor(r) # "paused"
+  /\ rq' = [rq EXCEPT ![r] = IF PStateFor(r) = "stopped" THEN [@ EXCEPT !.pc = "done", !.status = 503]
                              ELSE [@ EXCEPT !.pc = "gated"]]
-  /\ UNCHANGED <<table, verLb, ts, saved, rot, became, hcOn, hc, nprobe, inflight, dr, snap, pstate, pgen, cm, next, res, okEver, retired>>
+  /\ UNCHANGED <<table, verLb, verRb, split, ts, saved, rot, became, hcOn, hc, nprobe, inflight, dr, snap, pstate, pgen, inc, pold, cm, next, res, okEver, retired>>
 
 ReqPauseTimeout(r) ==                          \* the request's own max-pause timer fires
   /\ rq[r].pc = "held"
   /\ rq' = [rq EXCEPT ![r] = [@ EXCEPT !.pc = "done", !.status = 504]]
-  /\ UNCHANGED <<table, verLb, ts, saved, rot, became, hcOn, hc, nprobe, inflight, dr, snap, pstate, pgen, cm, next, res, okEver, retired>>
+  /\ UNCHANGED <<table, verLb, verRb, split, ts, saved, rot, became, hcOn, hc, nprobe, inflight, dr, snap, pstate, pgen, inc, pold, cm, next, res, okEver, retired>>
 
-ReqPickLb(r) ==                                \* hook gate_passed; loadBalancerForRequest reads service.active
-  /\ rq[r].pc = "gated"
-  /\ rq' = [rq EXCEPT ![r] = [@ EXCEPT !.pc = "picked", !.lb = verLb[rq[r].ver],
+ReqPickLb(r, roll) ==                          \* hook gate_passed; loadBalancerForRequest reads active / rollout / controller
+  /\ rq[r].pc = "gated"                        \* roll: the request carries the cookie and its value is inside the split
+  /\ roll => (verRb[rq[r].ver] # 0 /\ split[rq[r].ver])                   \* (a pure function of the request)
+  /\ rq' = [rq EXCEPT ![r] = [@ EXCEPT !.pc = "picked", !.roll = roll,
+                                       !.lb = IF roll THEN verRb[rq[r].ver] ELSE verLb[rq[r].ver],
                                        !.gateclaim = pstate # "running"]]
-  /\ UNCHANGED <<table, verLb, ts, saved, rot, became, hcOn, hc, nprobe, inflight, dr, snap, pstate, pgen, cm, next, res, okEver, retired>>
+  /\ UNCHANGED <<table, verLb, verRb, split, ts, saved, rot, became, hcOn, hc, nprobe, inflight, dr, snap, pstate, pgen, inc, pold, cm, next, res, okEver, retired>>
 
 ReqClaimNone(r) ==                             \* hook pre_claim; claimTarget: rotation empty -> 503
   /\ rq[r].pc = "picked" /\ rot[rq[r].lb] = {}
-  /\ rq' = [rq EXCEPT ![r] = [@ EXCEPT !.pc = "done", !.status = 503, !.stale = rq[r].ver # table,
+  /\ rq' = [rq EXCEPT ![r] = [@ EXCEPT !.pc = "done", !.status = 503, !.stale = (rq[r].ver # table \/ rq[r].lb \notin LiveLbs(rq[r].ver)),
                                        !.gateclaim = @ \/ pstate # "running"]]
-  /\ UNCHANGED <<table, verLb, ts, saved, rot, became, hcOn, hc, nprobe, inflight, dr, snap, pstate, pgen, cm, next, res, okEver, retired>>
+  /\ UNCHANGED <<table, verLb, verRb, split, ts, saved, rot, became, hcOn, hc, nprobe, inflight, dr, snap, pstate, pgen, inc, pold, cm, next, res, okEver, retired>>
 
 ReqClaim(r, t) ==                              \* claimTarget: next in rotation (any order), StartRequest
   /\ rq[r].pc = "picked" /\ t \in rot[rq[r].lb]
   /\ IF ts[t] = "draining"
-     THEN /\ rq' = [rq EXCEPT ![r] = [@ EXCEPT !.pc = "done", !.status = 503, !.stale = rq[r].ver # table,
+     THEN /\ rq' = [rq EXCEPT ![r] = [@ EXCEPT !.pc = "done", !.status = 503, !.stale = (rq[r].ver # table \/ rq[r].lb \notin LiveLbs(rq[r].ver)),
                                                !.gateclaim = @ \/ pstate # "running"]]
           /\ UNCHANGED inflight
-     ELSE /\ rq' = [rq EXCEPT ![r] = [@ EXCEPT !.pc = "claimed", !.tgt = t, !.stale = rq[r].ver # table,
+     ELSE /\ rq' = [rq EXCEPT ![r] = [@ EXCEPT !.pc = "claimed", !.tgt = t, !.stale = (rq[r].ver # table \/ rq[r].lb \notin LiveLbs(rq[r].ver)),
                                                !.gateclaim = @ \/ pstate # "running",
                                                !.claimTs = ts[t], !.claimHc = hc[t]]]
           /\ inflight' = [inflight EXCEPT ![t] = @ \cup {r}]
-  /\ UNCHANGED <<table, verLb, ts, saved, rot, became, hcOn, hc, nprobe, dr, snap, pstate, pgen, cm, next, res, okEver, retired>>
+  /\ UNCHANGED <<table, verLb, verRb, split, ts, saved, rot, became, hcOn, hc, nprobe, dr, snap, pstate, pgen, inc, pold, cm, next, res, okEver, retired>>
 
 TgBegin(r) ==                                  \* the target sees the request
   /\ rq[r].pc = "claimed"
   /\ rq' = [rq EXCEPT ![r] = [@ EXCEPT !.pc = IF rq[r].kind \in {"upgrade", "slowupgrade"} THEN "upgraded" ELSE "atTarget",
                                        !.lateBeg = retired[rq[r].tgt]]]
-  /\ UNCHANGED <<table, verLb, ts, saved, rot, became, hcOn, hc, nprobe, inflight, dr, snap, pstate, pgen, cm, next, res, okEver, retired>>
+  /\ UNCHANGED <<table, verLb, verRb, split, ts, saved, rot, became, hcOn, hc, nprobe, inflight, dr, snap, pstate, pgen, inc, pold, cm, next, res, okEver, retired>>
 
 ReqEnd(r) ==                                   \* the target replies; endInflightRequest; client gets 200
   /\ rq[r].pc = "atTarget" /\ rq[r].kind \in {"plain", "slow"}
   /\ r \in inflight[rq[r].tgt]
   /\ inflight' = [inflight EXCEPT ![rq[r].tgt] = @ \ {r}]
   /\ rq' = [rq EXCEPT ![r] = [@ EXCEPT !.pc = "done", !.status = 200]]
-  /\ UNCHANGED <<table, verLb, ts, saved, rot, became, hcOn, hc, nprobe, dr, snap, pstate, pgen, cm, next, res, okEver, retired>>
+  /\ UNCHANGED <<table, verLb, verRb, split, ts, saved, rot, became, hcOn, hc, nprobe, dr, snap, pstate, pgen, inc, pold, cm, next, res, okEver, retired>>
 
 UpgEnd(r) ==                                   \* an upgraded connection is closed by its peers; endInflightRequest
   /\ rq[r].pc = "upgraded" /\ rq[r].kind = "slowupgrade"
   /\ r \in inflight[rq[r].tgt]
   /\ inflight' = [inflight EXCEPT ![rq[r].tgt] = @ \ {r}]
   /\ rq' = [rq EXCEPT ![r] = [@ EXCEPT !.pc = "done"]]
-  /\ UNCHANGED <<table, verLb, ts, saved, rot, became, hcOn, hc, nprobe, dr, snap, pstate, pgen, cm, next, res, okEver, retired>>
+  /\ UNCHANGED <<table, verLb, verRb, split, ts, saved, rot, became, hcOn, hc, nprobe, dr, snap, pstate, pgen, inc, pold, cm, next, res, okEver, retired>>
 
 Finished ==                                    \* nothing left to do: stutter (so that deadlock checking is meaningful)
   /\ next > NCmds /\ cm.pc = "idle"
@@ -387,12 +456,13 @@ Next ==
   \/ \E t \in Targets : HcSend(t) \/ HcApply(t) \/ HcNotify(t) \/ HcStopped(t)
                         \/ DrainMark(t) \/ DrainSnapshot(t) \/ DrainWaitDone(t) \/ DrainDeadline(t) \/ DrainRestore(t)
   \/ \E t \in Targets, good \in BOOLEAN : TgProbeReply(t, good)
-  \/ \E t \in Targets : TgProbeDropped(t)
-  \/ \E k \in CmdIds : DepCall(k) \/ PcPause(k) \/ PcStop(k) \/ PcResume(k) \/ CmdNotFound(k)
+  \/ \E t \in Targets : TgProbeDropped(t) \/ WaitTargetTimeout(t)
+  \/ \E k \in CmdIds : DepCall(k) \/ RdCall(k) \/ RsSet(k) \/ RsStop(k) \/ CmdRemove(k) \/ PcPause(k) \/ PcStop(k) \/ PcResume(k) \/ CmdNotFound(k)
   \/ DepWaitOk \/ DepWaitTimeout \/ DepUpdateSlot \/ DepInstall \/ DrainAllDone \/ DepDisposeOld \/ CmdReturn
   \/ \E r \in Reqs, kind \in Kinds : CliSend(r, kind)
-  \/ \E r \in Reqs : ReqRoute(r) \/ ReqGate(r) \/ ReqReleased(r) \/ ReqPauseTimeout(r) \/ ReqPickLb(r)
+  \/ \E r \in Reqs : ReqRoute(r) \/ ReqGate(r) \/ ReqReleased(r) \/ ReqPauseTimeout(r)
                      \/ ReqClaimNone(r) \/ TgBegin(r) \/ ReqEnd(r) \/ UpgEnd(r)
+  \/ \E r \in Reqs, roll \in BOOLEAN : ReqPickLb(r, roll)
   \/ \E r \in Reqs, t \in Targets : ReqClaim(r, t)
   \/ Finished
 
@@ -434,7 +504,7 @@ D_C03_b == \A r \in Reqs : rq[r].lateBeg => KF(r)
 D_C03_a == \A t \in Targets : retired[t] => \A r \in inflight[t] : KF(r)
 \* C03 for pause/stop: after pause/stop returned and until resume is called, nothing in flight / nothing new
 Quiesced == cm.pc = "idle" /\ pstate \in {"paused", "stopped"}
-D_C03_p == Quiesced => \A t \in Targets : \A r \in inflight[t] : KF(r)
+D_C03_p == Quiesced => \A t \in LiveTargets : \A r \in inflight[t] : KF(r)
 
 \* C07_a / C08: a request sent in a definite paused (stopped) interval is not forwarded before resume
 D_C07_a == \A r \in Reqs : (rq[r].pAtSend \in {"paused", "stopped"} /\ ~rq[r].resumed /\ ~KF(r)) => rq[r].tgt = NoTarget
@@ -452,9 +522,17 @@ D_C08 == \A r \in Reqs : (rq[r].pc = "done" /\ rq[r].pAtSend = "stopped" /\ ~rq[
 D_C17_c == /\ \A t \in Targets : retired[t] => ~hcOn[t]
            /\ \A k \in CmdIds : (res[k] = "unhealthy" /\ ~(cm.pc # "idle" /\ cm.k = k)) => \A t \in Group[k] : ~hcOn[t]
 
+\* C17_c for remove: while no service is installed and no command is running nothing is probed
+D_C17_r == (table = 0 /\ cm.pc = "idle") => \A t \in Targets : ~hcOn[t]
+
 \* C09 (design level): a target is claimed only while its applied state is healthy, or in the window between
 \* the locked section of HealthCheckCompleted and the rotation update that follows it (hc = "applied")
 D_C09 == \A r \in Reqs : rq[r].tgt # NoTarget => (rq[r].claimTs = "healthy" \/ rq[r].claimHc = "applied" \/ rq[r].stale)
+
+\* C10: a request sent while no split was set (and none set during its life) is never served by rollout targets
+D_C10 == \A r \in Reqs : (rq[r].tgt # NoTarget /\ rq[r].nosplit /\ ~KF(r)) => Cmds[GroupOf(rq[r].tgt)] # "rdeploy"
+\* C10: a split can only be in force on a version that has rollout targets
+D_C10_split == \A v \in 1..NCmds : split[v] => verRb[v] # 0
 
 (***************************************************************************)
 (* Witness goals: situations the executor should be steered into.  Each    *)
@@ -469,6 +547,7 @@ W_FailedDeploy       == ~\E k \in CmdIds : res[k] = "unhealthy"
 W_HeldThenServed     == ~\E r \in Reqs : rq[r].pc = "done" /\ rq[r].heldIn # 0 /\ rq[r].status = 200
 W_HeldThenStopped    == ~\E r \in Reqs : rq[r].pc = "done" /\ rq[r].heldIn # 0 /\ rq[r].status = 503
 W_GateClaim          == ~\E r \in Reqs : rq[r].gateclaim /\ rq[r].pc = "done"
+W_ServedByRollout    == ~\E r \in Reqs : rq[r].pc = "done" /\ rq[r].status = 200 /\ rq[r].roll
 
 (***************************************************************************)
 (* Liveness (checked under fairness without state constraint):             *)
@@ -477,12 +556,12 @@ W_GateClaim          == ~\E r \in Reqs : rq[r].gateclaim /\ rq[r].pc = "done"
 FairnessBase ==
   /\ \A t \in Targets : WF_vars(HcApply(t)) /\ WF_vars(HcNotify(t)) /\ WF_vars(HcStopped(t))
                         /\ WF_vars((\E good \in BOOLEAN : TgProbeReply(t, good)) \/ TgProbeDropped(t))   \* a probe completes one way or the other
-                        /\ WF_vars(DrainMark(t)) /\ WF_vars(DrainSnapshot(t))
+                        /\ WF_vars(DrainMark(t)) /\ WF_vars(DrainSnapshot(t)) /\ WF_vars(WaitTargetTimeout(t))
                         /\ WF_vars(DrainWaitDone(t)) /\ WF_vars(DrainRestore(t))
   /\ WF_vars(DepWaitOk) /\ WF_vars(DepWaitTimeout) /\ WF_vars(DepUpdateSlot) /\ WF_vars(DepInstall)
   /\ WF_vars(DrainAllDone) /\ WF_vars(DepDisposeOld) /\ WF_vars(CmdReturn)
   /\ \A r \in Reqs : WF_vars(ReqRoute(r)) /\ WF_vars(ReqGate(r)) /\ WF_vars(ReqReleased(r)) /\ WF_vars(ReqPauseTimeout(r))
-                     /\ WF_vars(ReqPickLb(r)) /\ WF_vars(ReqClaimNone(r)) /\ WF_vars(TgBegin(r)) /\ WF_vars(ReqEnd(r))
+                     /\ WF_vars(\E roll \in BOOLEAN : ReqPickLb(r, roll)) /\ WF_vars(ReqClaimNone(r)) /\ WF_vars(TgBegin(r)) /\ WF_vars(ReqEnd(r))
                      /\ WF_vars(\E t \in Targets : ReqClaim(r, t))
 
 Fairness == FairnessBase /\ \A t \in Targets : WF_vars(DrainDeadline(t))
